@@ -91,3 +91,25 @@ def markup_inventory(ctx: Ctx, rid: str) -> None:
                       f"{mod}.{q}: `{ast.unparse(c)[:60]}` ({cls}: {reason}) - the argument is not proven escaped: {tr.why(c.args[0], scope) if c.args else ''} flows into it, so a plain string argument is emitted as markup",
                       f"{m.rel}:{c.lineno}", detail={"site": f"{mod}:{q}", "class": cls, "reason": reason})
     ctx.floor("Markup constructions", n, 20)
+    # the other way to be trusted: escape() and Markup.join return an object's __html__()
+    # verbatim.  Who defines it, and is its text free of unescaped data?
+    html_ok = {
+        ("runtime", "ChainableUndefined"): "returns str(self); str of this class and of Undefined is '' - no subclass in the package overrides __str__",
+        ("environment", "TemplateModule"): "rendered output of the module, wrapped in Markup",
+        ("filters", "HasHTML"): "typing protocol (TYPE_CHECKING only)",
+    }
+    nh = 0
+    for mod in sorted(repo.modules):
+        m = repo.module(mod)
+        for cdef in [x for x in ast.walk(m.tree) if isinstance(x, ast.ClassDef)]:
+            if not any(isinstance(f, (ast.FunctionDef, ast.AsyncFunctionDef)) and f.name == "__html__" for f in cdef.body):
+                continue
+            nh += 1
+            why = html_ok.get((mod, cdef.name))
+            ctx.check(why is not None, f"__html__:{mod}:{cdef.name}", f"{mod}:{cdef.name}", f"{cdef.name} defines __html__",
+                      f"{mod}.{cdef.name} defines __html__: escape() and Markup.join() trust that text without escaping it. For a class whose string form (or that of a subclass, e.g. DebugUndefined's `{{{{ no such element: obj['<key>'] }}}}`) contains context data this emits raw markup under autoescape", f"{m.rel}:{cdef.lineno}", detail={"reason": why})
+    # the reviewed ChainableUndefined case stays valid only while no subclass gives it a data-dependent string form
+    for ci in repo.classes("runtime"):
+        if any(c.name == "ChainableUndefined" for c in repo.mro(ci)[1:]):
+            ctx.check("__str__" not in ci.methods, f"__html__:subclass:{ci.name}", f"runtime:{ci.name}", f"{ci.name} overrides __str__ below an __html__ definition", f"{ci.name} inherits ChainableUndefined.__html__ (= str(self)) but overrides __str__: its text is emitted unescaped", ci.loc())
+    ctx.floor("__html__ definitions", nh, 2)
